@@ -10,6 +10,9 @@ CLAIMED={
  'C18':("quorum arithmetic, role guards of every become* transition, voting members = remotes ∪ witnesses, non-voting vote responses dropped, witnesses never get reads served; unbounded per-function proofs","handler-table nil slots, witness payload stripping and node.go API guards are not under contract yet; schedule-dependent interplay with in-flight membership application"),
  'C06':("ReadIndex bookkeeping: admission only with a committed entry of the current term and with index = commit index at admission; release only after quorum distinct confirmations incl. self; single-voter shortcut only when quorum is 1; readIndex dropped on every reset; unbounded per-function proofs","that a quorum-confirmed leader's commit index dominates earlier acknowledged writes (Raft thesis 6.4) is assumed; request.go (reader released only when applied >= index) not yet under contract; broadcastHeartbeatMessageWithHint assumed"),
  'C02':("local obligations: term/matchTerm/getConflictIndex/tryAppend/append (log matching, conflict truncation never at or below commit), commit only of entries whose term matches (entryLog.tryCommit), contiguous in-order hand-out of committed entries, setApplied advances by exactly one; unbounded per-function proofs","the cross-replica state-machine-safety theorem is assumed over these local obligations; raft.tryCommit's quorum-th largest match (sorting) and handleReplicateMessage are not yet under contract"),
+ 'C13':("hand-written Entry codec: exact encoded size (Size == marshalTo's return value == spec function), no buffer overrun in marshalTo (every index/slice obligation), Size <= SizeUpperLimit; protobuf varint helpers; State Size/MarshalTo/SizeUpperLimit; Update.SizeUpperLimit covers the hard state's upper limit; Int mode with exact machine arithmetic","byte-level round trip (decode(encode(x)) == x) is NOT decided (would need the bit-vector mode); gogo-generated map-bearing codecs, snappy, transport frame checks are not under contract; Update.MarshalTo's aggregate bound not decided"),
+ 'C14':("BlockWriter.Write: never writes the caller's buffer (frame), consumes the whole input, block bookkeeping invariant (a block is emitted exactly at blockSize payload bytes); unbounded","hash/io interfaces and the block callback have assumed contracts; block reader, stream validator, header and shrink logic are not under contract; CRC-32 detection power assumed"),
+ 'C15':("sender: splitBySnapshotFile produces ceil(size/C) chunks with consecutive ids whose sizes are C except the last and sum to the file size; receiver: Chunk.record accepts only chunk 0 or the next expected chunk from the sender that started the stream, any other chunk leaves the tracked state unchanged; unbounded","validator, file-system effects, finalisation order (addLocked) and path handling are not under contract; chunkKey is an uninterpreted function of (shard, replica, index)"),
 }
 NA={
  'C01':"linearizability is a predicate over concurrent client histories under fault schedules; no per-function contract expresses it (its mechanisms are decided under C06, C12, C02, C11)",
